@@ -105,7 +105,7 @@
         complete), defaults against the entities declared before, Unique Att Spec, Legal Character.
         The valid abstract documents of Spec/Infoset.v satisfy [conv_hyps] when they have no external subset (their
         entity values are character data and references, [ent_items_ok]), so what is left for (f) with a DOCTYPE
-        is the DTD rung of [render_wf] alone.
+        is the DTD rung of [render_wf] alone: (k), (l).
     (k) round 2 -- THE SYNTAX RUNG OF [render_wf] FOR DOCUMENTS WITH A DOCUMENT TYPE DECLARATION
         ([rendered_doctype_is_read_partial], Proofs/XmlWFSyntaxRenderDtd{,Elem,Doc}.v): for every abstract
         document that satisfies [shape_ok] (the lexical half of [valid]) and has a DOCTYPE, every oracle,
@@ -137,9 +137,24 @@
         [doctype_valid_nonvacuous]: a document with entities referencing each other, an unparsed entity, a
         notation, an ATTLIST with a default that binds a prefix used in the tree, mixed and children content
         models satisfies all the hypotheses.
-    Not proved: for all documents, [parse_render]
-    (the infoset the model builds from the rendering is [denote d]; named [parse_render_partial] in
-    notes/wf_STATUS.md).  These are covered by checks/C01.py, which evaluates wf (render d c) and
+    (m) round 2 -- [parse_render] ON THE SIDE OF THE SPECIFICATION ([spec_parse_render_partial],
+        Proofs/XmlWFSyntaxRenderTokens.v): for every valid abstract document outside the exclusion of (g), every
+        oracle that puts no carriage return into white space,
+          infoset_of_string (render d c) = Some (denote d)
+        i.e. the information set that Spec/Infoset.v reads from the rendering does not depend on the surface
+        choices: attribute tokens (the sort by name gives one result for every permutation of attributes with
+        distinct names: [sort_by_perm], with the order [str_ltb] shown strict and total; declared types and
+        defaults from the ATTLISTs read back; normalized values), character data (any mixture of characters,
+        character references, CDATA sections and predefined references accumulates to the same text token:
+        [text_tokens]), references to declared entities, the tokens of the DOCTYPE (notations, unparsed
+        entities, PIs: [doctype_tokens_read]).  The hypothesis about carriage returns is there because
+        [infoset_of_string] normalizes line ends BEFORE parsing and the read-back lemmas of (f), (k) speak
+        about the rendering itself; it is decidable on the rendering ([contains c_cr (render d c) = false]) and
+        holds for every oracle whose white-space choices avoid CR ([spec_parse_render_nonvacuous]).
+    Not proved: the MODEL half of [parse_render] -- the infoset that the model of the DOM builds from an
+    accepted text is the one [infoset_of_string] computes (for all documents; named [parse_render_partial] in
+    notes/wf_STATUS.md) -- and renderings with carriage returns in white space for (m).
+    This is covered by checks/C01.py, which evaluates wf (render d c) and
     infoset_of_string (render d c) = denote d with the extracted functions on every generated case,
     compares with the real crates, and cross-checks the specification against expat. *)
 From Coq Require Import List NArith Bool.
@@ -151,7 +166,7 @@ From XmlRs Require Model.ParseActions Model.Info Proofs.ParseInvElem Proofs.XmlW
   Proofs.DisplayLex Proofs.XmlWFSyntaxDtd Proofs.XmlWFSyntaxDtdDoc Proofs.XmlWFSyntaxConvDtd Proofs.XmlWFSyntaxConvDtdAtt
   Proofs.XmlWFSyntaxConvDtdElem Proofs.XmlWFSyntaxConvDtdDoc Proofs.XmlWFSyntaxConvDtdCheck
   Proofs.XmlWFSyntaxRenderDtd Proofs.XmlWFSyntaxRenderDtdElem Proofs.XmlWFSyntaxRenderDtdDoc
-  Proofs.XmlWFSyntaxRenderDtdCheck Proofs.XmlWFSyntaxRenderDtdWf.
+  Proofs.XmlWFSyntaxRenderDtdCheck Proofs.XmlWFSyntaxRenderDtdWf Proofs.XmlWFSyntaxRenderTokens.
 Import ListNotations.
 
 (** every oracle is an admissible choice of surface forms *)
@@ -409,6 +424,15 @@ Example doctype_valid_nonvacuous :
   valid ex_adoc_dtd = true /\ no_predefined_redeclared ex_adoc_dtd = true /\ accepted_profile ex_adoc_dtd = true.
 Proof. split; [vm_compute; reflexivity|split; vm_compute; reflexivity]. Qed.
 
+(** ** (m) parse_render on the side of the specification *)
+Theorem spec_parse_render_partial : forall (d : adoc) (c : choices), valid d = true -> no_predefined_redeclared d = true ->
+  contains c_cr (render d c) = false -> infoset_of_string (render d c) = Some (Infoset.denote d).
+Proof. intros d c Hv Hn Hcr. exact (XmlWFSyntaxRenderTokens.infoset_of_rendering d c Hv Hn Hcr). Qed.
+
+Example spec_parse_render_nonvacuous :
+  contains c_cr (render ex_adoc_dtd (fun _ => 0%N)) = false /\ contains c_cr (render ex_adoc_dtd (fun p => (7 * N.of_nat (length p)) mod 3)%N) = false.
+Proof. split; vm_compute; reflexivity. Qed.
+
 Example rendered_nontrivial :
   comment_ok [32;97;45;98;32]%N = true /\ pi_ok [112;105]%N (Some [120;63;32;62]%N) = true.
 Proof. split; vm_compute; reflexivity. Qed.
@@ -441,3 +465,4 @@ Print Assumptions wellformed_is_accepted_partial.
 Print Assumptions rendered_doctype_is_read_partial.
 Print Assumptions render_wf_partial.
 Print Assumptions rendered_is_accepted_partial.
+Print Assumptions spec_parse_render_partial.
